@@ -1,1 +1,88 @@
-(* placeholder, being written *)
+(* Props/Examples_C16.v — the hypotheses of the C16 theorems are satisfiable on a concrete,
+   non-trivial case (TESTS by computation). *)
+From Coq Require Import NArith ZArith List String Bool.
+From IMB Require Import Gen.GenConsts Gen.GenLayout Gen.GenReset Mgr.Ring Mgr.Reset Mgr.Reattach
+                        Proofs.RingArith Proofs.RingProofs Proofs.ResetProofs Proofs.ReattachProofs
+                        Props.Properties_C16.
+Import ListNotations.
+Local Open Scope N_scope.
+
+Local Notation SZ := SIZEOF_IMB_JOB.
+Local Notation NJ := IMB_MAX_JOBS.
+Local Notation MAXB := IMB_MAX_BURST_SIZE.
+
+Definition host_cpu : N := 0xc1fffff.
+Definition a_avx512 : arch_init := nth 2 arch_inits (mkarch "" 0 [] [] "").
+
+(* a history: four jobs parked in out-of-order managers (nothing completes), a poll, a fifth job
+   whose submission completes the oldest one, a sixth *)
+Definition hist : list op :=
+  [Submit true None 11 []; Submit true None 12 []; Submit true None 13 []; Submit false None 14 [];
+   GetCompleted; Submit true None 15 [0%Z]; Submit true None 16 []].
+
+Definition s0 : st := init.      (* empty ring at slot 0 *)
+
+Example ex_hist_ok : empty_at SZ NJ s0 0 /\ ops_ok SZ NJ MAXB s0 hist = true.
+Proof. split; [repeat split; cbn; try reflexivity; discriminate|vm_compute; reflexivity]. Qed.
+
+(* crash after the 4th call: jobs 11..14 in flight.  The block: an AVX512-T2 manager, lanes full
+   of state, error code set by an earlier failed call *)
+Definition crashed (k : nat) : mgr :=
+  mkmgr (set_errno 2008 (final SZ NJ MAXB s0 (firstn k hist)))
+        0 (feature_adjust 0 host_cpu) IMB_ARCH_AVX512 2 (Some "avx512_t2"%string)
+        (fun _ => 0) (fun _ a => a mod 251).
+
+(* flush oracle: each flush completes the job flush asks for (the oldest) *)
+Definition Ds4 : list (list Z) := [[0%Z]; [216%Z]; [432%Z]; [648%Z]].
+
+Example ex_crash4_hyps :
+  let M := with_ring (final SZ NJ MAXB s0 (firstn 4 hist)) (crashed 4) in
+  let R := m_ring (reattach host_cpu 0 0x10000000000 M) in
+  ops_ok SZ NJ MAXB R (map Flush Ds4) = true /\
+  Z.of_nat (List.length Ds4) = pending_count SZ NJ MAXB s0 (firstn 4 hist).
+Proof. vm_compute. split; reflexivity. Qed.
+
+(* the theorem applied *)
+Example ex_crash4 :
+  let M := with_ring (final SZ NJ MAXB s0 (firstn 4 hist)) (crashed 4) in
+  let R := m_ring (reattach host_cpu 0 0x10000000000 M) in
+  all_returned (trace SZ NJ MAXB R (map Flush Ds4)) = [11; 12; 13; 14]%Z.
+Proof.
+  intros M R. destruct ex_hist_ok as [He Hok]. destruct ex_crash4_hyps as [H1 H2].
+  destruct (crash_flush_returns_all_in_order s0 0 hist 4 host_cpu 0 0x10000000000 M Ds4 He Hok eq_refl H1 H2) as (Hret & _).
+  fold M R in Hret. rewrite Hret. vm_compute. reflexivity.
+Qed.
+
+(* and computed directly, at every crash point of the history: the jobs handed back by flushing
+   the re-attached manager are the ones pending at that point, in order *)
+Definition flush_ids (k : nat) : list Z :=
+  let M := crashed k in
+  let R := m_ring (reattach host_cpu 0 0x10000000000 M) in
+  (* complete everything on each flush: a lazy oracle is the harder case, a greedy one the easier *)
+  let all := map (fun i => (Z.of_nat i * 216)%Z) (seq 0 8) in
+  all_returned (trace SZ NJ MAXB R (map Flush (repeat all 6))).
+
+Example ex_all_crash_points :
+  map flush_ids (seq 0 8) =
+  [[]; [11]; [11; 12]; [11; 12; 13]; [11; 12; 13; 14]; [11; 12; 13; 14]; [12; 13; 14; 15]; [12; 13; 14; 15; 16]]%Z.
+Proof. vm_compute. reflexivity. Qed.
+
+(* re-attachment binds the AVX512-T2 handlers again, keeps used_arch, recomputes the pointers *)
+Example ex_rebind :
+  let M := crashed 4 in
+  m_bound (reattach host_cpu 0 0x10000000000 (with_bound None M)) = Some "avx512_t2"%string /\
+  m_ptrs (reattach host_cpu 0 0x10000000000 M) "aes128_ooo"%string = 0x10000000000 + 56768 /\
+  m_ptrs (reattach host_cpu 0 0x10000000000 M) "aes_cfb_256_ooo"%string = 0x10000000000 + 224384 /\
+  errno (m_ring (reattach host_cpu 0 0x10000000000 M)) = 0%Z /\
+  m_ooo (reattach host_cpu 0 0x10000000000 M) "aes128_ooo"%string 100 = 100 /\         (* lane state untouched *)
+  read_le (m_ooo (reattach host_cpu 0 0x10000000000 M) "aes128_ooo"%string) 4808 8 = OOO_ROAD_BLOCK.
+Proof. vm_compute. repeat split; reflexivity. Qed.
+
+(* re-attaching with other flags: handlers follow the flags STORED in the block (0 -> T2), the
+   features word follows the new flags *)
+Example ex_flags_order :
+  let M := crashed 4 in
+  m_bound (reattach host_cpu 3 0x10000000000 M) = Some "avx512_t2"%string /\
+  m_flags (reattach host_cpu 3 0x10000000000 M) = 3 /\
+  m_features (reattach host_cpu 3 0x10000000000 M) = feature_adjust 3 host_cpu.
+Proof. vm_compute. repeat split; reflexivity. Qed.
